@@ -160,6 +160,31 @@ def _ite_split(z3, fs, ids, timeout_ms):
         if mentions(f):
             walk(f, False)
     conds = conds[:4]
+    # a store that read-over-write could not expand (its array is itself an if-then-else): whether a skolem index hits the
+    # stored position is a further case distinction
+    idxs, seen_s = [], set()
+
+    def stores(t):
+        if t.get_id() in seen_s:
+            return
+        seen_s.add(t.get_id())
+        if z3.is_quantifier(t):
+            stores(t.body())
+            return
+        if z3.is_app(t) and t.decl().kind() == z3.Z3_OP_STORE and t.arg(1).sort().kind() == z3.Z3_INT_SORT:
+            ix = t.arg(1)
+            if not _has_var(z3, ix) and ix.get_id() not in ids and not any(ix.eq(x) for x in idxs):
+                idxs.append(ix)
+        for c in t.children():
+            stores(c)
+    if conds:
+        for f in fs:
+            if not (z3.is_app(f) and f.decl().name().startswith(("hint!", "split!"))) and mentions(f):
+                stores(f)
+        for sk in list(ids.values())[:2]:
+            for ix in idxs[:2]:
+                if len(conds) < 6 and sk.sort().eq(ix.sort()):
+                    conds.append(sk == ix)
     if not conds:
         return None
     import itertools
